@@ -45,7 +45,7 @@ PROPS = {
  "C01": dict(
     level_text="Lean 4 proof for every execution (any thread count, schedule, length, buffer size) of the ring models that the Uni channels are built on: delivered sequence numbers are exactly 0..head-1 without repetition, each delivered value is the accepted one, nothing accepted is lost, a rejected send never wrote. Model tied to the code by step-level replay of thousands of scheduled runs; an implementation-side exactly-once oracle produces concrete replays.",
     level_note=LN_RING,
-    lean=["C01", "C01_LockRing", "C13_ZeroCopy"],
+    lean=["C01", "C01_LockRing", "C13_ZeroCopy", "Tags"],
     scenarios=[ring("atomic", "mixed", 1600), ring("fullsync", "mixed", 1600)] +
               [dict(bin="uni", args=[f"kind={k}", "sub=flow"], runs=300, model_name="M8 Wake", kinds=["invented", "duplicate", "rejected_delivered", "lost", "panic"]) for k in UNI_KINDS] +
               [dict(bin="uni", args=[f"kind={k}", "sub=cancel"], runs=300, model_name="M8 Wake", kinds=["buffered_event_dropped_at_end", "invented", "duplicate", "rejected_delivered", "panic"]) for k in UNI_KINDS] +
@@ -58,7 +58,7 @@ PROPS = {
  "C02": dict(
     level_text="Lean 4 proof of a forward simulation to a bounded FIFO with fixed linearization points (tail CAS = enqueue, head CAS = dequeue), capacity bound, FIFO of the delivery log, and witness instants for every `empty` and `full` answer, for every execution of the ring models; tied to the code by step-level replay; real-time-order oracle (empty-while-pending, full-while-room, FIFO) on the implementation.",
     level_note=LN_RING,
-    lean=["C02", "C02_LockRing", "C13_ZeroCopy"],
+    lean=["C02", "C02_LockRing", "C13_ZeroCopy", "Tags"],
     scenarios=[ring("atomic", "mixed", 1600), ring("fullsync", "mixed", 1600)] +
               [dict(bin="uni", args=[f"kind={k}", "sub=flow"], runs=300, model_name="M8 Wake", kinds=["order", "invented", "duplicate", "lost", "panic"]) for k in UNI_KINDS] +
               [dict(bin="uni", args=[f"kind={k}", "sub=fine"], runs=300, model=False, model_name="(oracle only, fine granularity)", kinds=["lost", "invented", "duplicate", "order", "panic"]) for k in UNI_KINDS],
@@ -69,7 +69,7 @@ PROPS = {
  "C16": dict(
     level_text="Lean 4 proof that the reject path of a send writes nothing (frame theorem), that quiescent states have no capacity in flight, that a solo send is rejected within 3 own steps exactly when N are pending and accepted otherwise, and that from every quiescent empty reachable state exactly N sends are accepted - for every reachable state, hence after any number of fill/drain cycles; tied to the code by step-level replay; refill oracle on the implementation.",
     level_note=LN_RING,
-    lean=["C16", "C16_LockRing", "C13_ZeroCopy"],
+    lean=["C16", "C16_LockRing", "C13_ZeroCopy", "Tags"],
     scenarios=[ring("atomic", "mixed", 1600), ring("fullsync", "mixed", 1600)] +
               # "after any number of fill/drain cycles": the same scenarios with the sequence counters about to wrap (cf. C15)
               [ring(k, "mixed", 400, extra=["origins=4294967288,4294967280,4294967264"]) for k in ("atomic", "fullsync")] +
@@ -85,7 +85,7 @@ PROPS = {
  "C13": dict(
     level_text="Lean 4 proof (a) for the COMPOSED container at the granularity of every shared access of both rings (model M4 ZeroCopy = pool + free-list ring + ring of ids, each an instance of ring model M1): in every reachable state both rings satisfy the ring invariant, the ids in the free list and in the queue are pairwise distinct and < N, a slot held by a thread is in neither ring and held by nobody else (at most one owner), both rings always have room (pigeonhole over the conserved slots: publish never answers full, dealloc never finds the free list full), an allocation never returns a held slot, enqueue answers full only when the free list answered empty; (b) for every execution of the pool model (any thread count / schedule / history, including shared and unique handles on top): free list, owned slots and unique allocations always form a permutation of 0..N-1 (so no slot has two owners, at most N are outstanding, exhaustion is answered exactly when the free list is empty, dealloc always finds room), FIFO reuse, id<->reference bijection; the free list itself is ring model M1/M2 (C02 witnesses for `empty`). Tied to the code by step-level replay; oracle: ids handed out are distinct, capacity restored.",
     level_note=LN_HANDLES,
-    lean=["C13", "C13_ZeroCopy"],
+    lean=["C13", "C13_ZeroCopy", "Tags"],
     scenarios=[handles("atomic", 1200), handles("fullsync", 1200), ring("atomic", "mixed", 800), ring("fullsync", "mixed", 800)] +
               # the bare allocator with every free-list access a yield point and an EXACT exhaustion oracle (after seeded C13-4)
               [dict(bin="handles", args=["sub=pool", f"kind={k}"], runs=800, model=False, model_name="(oracle only: bare pool allocator, every free-list access a yield point, exact exhaustion oracle)", kinds=["exhausted_while_free", "slot_two_owners", "pool_not_full", "no_progress", "panic"]) for k in ("atomic", "fullsync")] +
@@ -97,7 +97,7 @@ PROPS = {
  "C14": dict(
     level_text="Lean 4 proof over every execution of the handles model: rc = live + lent + owed, a held value is alive, unchanged and not in the free list, reference count equals live handles at quiescence, the destructor runs exactly at the fetch_sub that saw 1 (never earlier, never twice), into_ogre_arc neither destroys nor allocates, bulk increment + raw copies = clones. Tied to the code by step-level replay at every reference-counter access; destructor-count oracle.",
     level_note=LN_HANDLES,
-    lean=["C14"],
+    lean=["C14", "Tags"],
     scenarios=[handles("atomic", 1600), handles("fullsync", 1600),
                dict(bin="handles", args=["sub=shared"], runs=600, model=False, model_name="(oracle only: one handle shared by reference, scheduled at every reference-counter access)"),
                dict(bin="handles", args=["sub=freerun"], runs=3000, model=False, single=True, thorough_scale=20, model_name="(free-running threads: concurrent clones of a sole shared handle)")],
@@ -108,7 +108,7 @@ PROPS = {
  "C05": dict(
     level_text="Lean 4 proof: each payload generation is destroyed at most once and exactly once when its last handle is gone, a held slot is never re-allocated or overwritten, capacity is restored when everything is released (handles model); teardown: a general theorem characterises the field orders under which dropping a channel with buffered handles touches no freed pool memory, instantiated by `decide` on the field orders GENERATED from the current source on every run. Tied to the code by step-level replay + child-process teardown histories with an instrumented payload.",
     level_note=LN_HANDLES + " The teardown model is a region protocol (pool alive/freed): the allocator-level use-after-free itself is only observed on the real code as a crash of the child process.",
-    lean=["C05", "C13_ZeroCopy"],
+    lean=["C05", "C13_ZeroCopy", "Tags"],
     scenarios=[handles("atomic", 1200), handles("fullsync", 1200), dict(bin="teardown", args=[], runs=100, model=False, single=True, thorough_scale=10, model_name="Teardown (generated field orders)")] +
               [dict(bin="multi", args=[f"kind={k}", f"sub={sub}", "drains=1"], runs=300, model_name="M6+M7 Multi", kinds=["destroyed_while_held", "slot_reused_while_held", "held_value_changed", "panic"]) for k in ["ogre_atomic", "ogre_fullsync", "arc_atomic"] for sub in ["fan", "churn"]],
     rule=HANDLES_RULE + "; teardown: histories (events sent, consumed, handles released before/after) per channel kind, each in a child process",
@@ -118,7 +118,7 @@ PROPS = {
  "C18": dict(
     level_text="Lean 4 proof for every execution of the stack model (both stacks): mutual exclusion of the critical region, the linearized history replayed on an abstract bounded stack is legal and yields the current content (LIFO), full/empty answers are exact at the linearization instant inside the call, multiset conservation; the two non-blocking queues are the zero-copy containers over ring models M1/M2 whose bounded-FIFO refinement is C02 (restated in C18_Queue for the atomic queue, C02_LockRing for the full-sync one). Tied to the code: step-level replay (atomic-flag stack at every flag access; parking-lot stack at operation granularity, its mutex is trusted), result-level Wing-Gong linearizability search on the stacks and real-time FIFO / empty / full oracles on the queues under the scheduler; free-running multi-core conservation runs.",
     level_note="Theorems about models M12b (stacks) and M1/M2 (rings under the queues); parking_lot::RawMutex trusted to be a mutex; queue `full` is judged with slots held by operations in progress counted as taken (an allocate-then-publish design cannot refine a strictly atomic capacity-N queue); sequential consistency (the Relaxed unlock stores of the atomic stack are outside the model).",
-    lean=["C18", "C02_LockRing", "C18_Queue", "C13_ZeroCopy"],
+    lean=["C18", "C02_LockRing", "C18_Queue", "C13_ZeroCopy", "Tags"],
     scenarios=[dict(bin="misc", args=["sub=stack"], runs=1200, model_name="M12b Stack"), dict(bin="misc", args=["sub=plstack"], runs=800, model_name="M12b Stack"),
                dict(bin="misc", args=["sub=aqueue"], runs=800, model_name="M4 ZeroCopy (pool + free-list ring + ring of ids)"), dict(bin="misc", args=["sub=fqueue"], runs=800, model=False, model_name="(oracle only)"),
                dict(bin="misc", args=["sub=freerun"], runs=2, model=False, single=True, thorough_scale=30, model_name="(free running)")],
@@ -129,7 +129,7 @@ PROPS = {
  "C19": dict(
     level_text="Lean 4 proof for every execution of the CAS-loop model with an abstract floating-point update: the cell always equals the fold of the update over the measurements in commit order, every value ever stored (hence every reading) is the fold of a prefix - one (count, average) pair, never a mix -, each inc call commits exactly once, count = number of commits below the u32::MAX reset, split/join round trip, and over the rationals the recurrence computes the arithmetic mean exactly. Tied to the code: step-level replay with the update instantiated by the same IEEE single-precision formula (bit-exact comparison of every CAS); numeric mean tolerance checked by the oracle only.",
     level_note="Theorems about model M12a; f32 rounding is outside the model (checked numerically by the harness: relative 1e-3); lightweight_probe (documented as possibly out of sync) is not covered; sequential consistency.",
-    lean=["C19"],
+    lean=["C19", "Tags"],
     scenarios=[dict(bin="misc", args=["sub=incavg"], runs=2400, model_name="M12a IncAvg")],
     rule="2-3 recording threads (1-5 measurements each incl. the -1.0 sentinel and 0) + a reading thread; scheduler picks at the load and at the CAS; DISTINCT by trace hash; NON-TRIVIAL if some CAS failed and was retried",
     trusted_base=TB_COMMON + ["Lean's Float32 and Rust's f32 are both IEEE-754 binary32 with round-to-nearest (compared bit for bit on every run)"],
@@ -138,7 +138,7 @@ PROPS = {
  "C04": dict(
     level_text="Lean 4 proof of `no reachable state is stuck` (an accepted event pending, all producers returned, every live stream parked and un-notified) for the poll/park/wake protocol model, for all seven wake rules (uni full-sync, atomic, crossbeam, send-reserved; a Multi listener's queue on the atomic and on the full-sync channels; the log channel), every number of streams/producers/buffer sizes/schedules, spurious polls and waker changes included, by an inductive invariant - BOTH for publications that are one atomic queue step observing the exact length (lock-based and crossbeam kinds) AND for the two-phase publications of the channels over AtomicMove (claim a sequence number; publish in claim order; measure the length by a fresh load of head AFTER the publication), interleaved arbitrarily with the streams' steps and with suspended asynchronous sends of the movable atomic channel; counterexample theorems for what the invariant does not survive (MAX_STREAMS = 0; the pinned claim-time length: findings D5a/D5b, repaired in /repo). The wake decision of EVERY send path of EVERY channel is re-read from the current source on every run by the translator (tools/extract.py G3 -> Generated/WakeRules.lean, a guard-chain term per function) and proved, for all MAX_STREAMS and lengths, to compute the model rule the theorem is instantiated with (Props/C04_Rules.lean, 24 send paths). Tied to the real channels by step-level replay of scheduled runs at two granularities: streams-manager accesses only (all kinds), and additionally the publication CAS and the length measurement of the two-phase ring as yield points (`sub=mid`: uni movable atomic, uni zero-copy atomic, Multi arc atomic, Multi ogre_arc atomic - for the pooled kinds the driver absorbs the steps of the pool's free-list ring and frees the model's slot at the instant the deallocation's publication CAS succeeds) - including plain sends spinning behind suspended reservations; stuck states are decided by the scheduler (nobody runnable), not timed out. A third, finest search (every ring access a yield point) judges the implementation alone.",
     level_note="Theorem about model M8, in which a ring operation is one step (C02) except for the producer's publication / length measurement on the two-phase ring, which are separate steps; the consumer's dequeue is one step at its linearization point (C02: the head CAS), the producer's head load reads the number of completed dequeues; one task per stream token for C07; Multi channels are replayed through one listener (MAX_STREAMS = 1; with several listeners each queue runs the same protocol independently); the log channel wakes every listed listener after every publication: rule `all`, an instance of the theorem like the others (its wake decision is read from the source by G3; its protocol is exercised by `mmaplog sub=wake`). The movable full-sync channel's send_with_async holds the queue-wide lock while suspended (finding D8b of C20): it is outside the executions of the theorem. The reserved-send paths (try_send_reserved) are modelled as one step.",
-    lean=["C04", "C04_Rules"],
+    lean=["C04", "C04_Rules", "Tags"],
     scenarios=[dict(bin="uni", args=[f"kind={k}", "sub=flow"], runs=500, model_name="M8 Wake", kinds=["lost_wakeup", "no_progress", "panic"]) for k in UNI_KINDS] +
               [dict(bin="uni", args=[f"kind={k}", "sub=flow"], runs=300, model_name="M8 Wake", kinds=["lost_wakeup", "no_progress", "panic"]) for k in MULTI1_KINDS] +
               [dict(bin="uni", args=[f"kind={k}", "sub=mid"], runs=800, model_name="M8 Wake (two-phase publication: publication CAS and length measurement are yield points)", kinds=["lost_wakeup", "no_progress", "panic"]) for k in ["matomic", "marc_atomic", "zatomic", "mogre_atomic"]] +
@@ -151,7 +151,7 @@ PROPS = {
  "C07": dict(
     level_text="Lean 4 proof, for every execution of model M8 (cancel requests at any point, concurrent sends, spurious polls): a stream whose keep-running flag was cleared is never left parked and un-notified once the cancel's wake call has finished, it ends at its first empty consume, yields only buffered events meanwhile, and a cancel touches no other stream's flag / waker / state; counterexample theorem for `untargeted streams keep being woken` on Uni channels (recorded finding). cancel_all_streams(): its walk over used_streams is a small machine on top of the bookkeeping model. As REPAIRED in /repo (finding D11, fix 944df07: the walk holds streams_lock) - Model/CancelAllLock.lean: mutual exclusion on streams_lock is an inductive invariant of the walker + any number of threads creating / removing listeners, sending and polling, and FOR EVERY INTERLEAVING the streams the finished walk told to end are exactly the entries used_streams listed, up to the sentinel, at the instant the walker took the lock, each once, in order (c07_cancel_all_locked); the D11 schedule on the repaired walk ends with all three streams told to end (c07_d11_schedule_repaired). The PINNED unlocked walk stays as Model/CancelAll.lean: correct with no churn (c07_cancel_all_quiescent), misses a live stream when a lower-id listener is removed meanwhile (c07_cancel_all_race_counterexample). `multi sub=cancelall` searches the real channels for it on every run (corpus/C07). Tied to the code by step-level replay; the scheduler decides `parked forever`.",
     level_note="Theorem about model M8 under the hypothesis that different streams are driven by tasks with different wakers (TokRun); stream-id recycling is C10's bookkeeping theorem. Known finding: ending a proper subset of a Uni channel's streams starves the others.",
-    lean=["C07", "C07_CancelAll", "C07_CancelAllLock"],
+    lean=["C07", "C07_CancelAll", "C07_CancelAllLock", "Tags"],
     scenarios=[dict(bin="uni", args=[f"kind={k}", "sub=cancel"], runs=500, model_name="M8 Wake", kinds=["cancelled_stream_never_ended", "untargeted_stream_starved", "buffered_event_dropped_at_end", "no_progress", "panic", "invented", "duplicate"]) for k in UNI_KINDS] +
               [dict(bin="multi", args=[f"kind={k}", "sub=reuse"], runs=300, model=False, model_name="(oracle only: a stream id handed out again while its previous owner's removal is finishing)", kinds=["uncancelled_stream_ended", "no_progress", "panic"]) for k in MULTI_KINDS] +
               [dict(bin="exec", args=["sub=endreuse"], runs=120, model=False, single=True, thorough_scale=10, model_name="(oracle only: ONE stream ended through gracefully_end_stream() while its consumer re-subscribes and gets the released id; real clock)", kinds=["uncancelled_stream_ended", "untargeted_stream_starved", "cancelled_stream_never_ended", "buffered_event_dropped_at_end", "panic"])] +
@@ -163,7 +163,7 @@ PROPS = {
  "C08": dict(
     level_text="Lean 4 proof on ring model M1: index-based publication succeeds only on the caller's own sequence number and publishes the slot's content; while a reservation is held nobody else writes its slot; index-based cancel is exact, changes nothing but the reservation counter and is refused out of order, whenever producer-side calls are sequential (the property's scope; a counterexample theorem shows it is not exact with a concurrent producer mid-call); cancelled content is never delivered; at quiescence nothing is leaked and exactly N sends are accepted; u32 exactness of the lap reconstruction at any counter magnitude is C15. Tied to the code by step-level replay of random reservation histories with concurrent consumers, in the release and the overflow-checking build.",
     level_note=LN_RING + " Zero-copy / ogre_arc reservations are pool allocations (C13/C05 models).",
-    lean=["C08"],
+    lean=["C08", "Tags"],
     scenarios=[ring("atomic", "rsv", 2000), ring("atomic", "rsv", 1000, profile="checked"),
                ring("atomic", "rsv", 1000, extra=["origins=4294967288,0,4294967280,4294967264", "model32=1"], profile="checked", model_name="M1/32 Ring32"),
                dict(bin="ring", args=["kind=atomic", "sub=diff", "origins=0,4294967288,4294967280,4294967264"], runs=300, model=False, profile="checked", model_name="(differential)")] +
@@ -178,7 +178,7 @@ PROPS = {
  "C15": dict(
     level_text="Lean 4 proof of a REFINEMENT between two executable machines: Ring32 (model of AtomicMove computing on u32 residues with exactly the wrapping / signed / checked operations of the source) is, action for action and for runs of any length, the image modulo 2^32 of ring model M1 over free-running naturals, and never panics (c15_refinement; window hypotheses derived from a bound on the number of threads by a pigeonhole argument; index-based re-guess loops related at call level), and the same for FullSyncMove (LockRing32, c15_lockring_refinement); plus: every decision the rings take from their wrapping u32 counters (admission, emptiness as a signed difference, slot index, length, CAS equality, lap reconstruction of index-based publish / cancel with its checked + and *) equals the decision model M1/M2 takes from free-running naturals, for counters of ANY magnitude inside the windows the ring invariant provides, and that no checked operation overflows (counterexample theorem: the pinned `enqueuer_tail - 1` does). Tied to the code: step-level replay from origins just below 2^32 (counters wrap during the run), differential replay of sequential histories from five origins in the release and the overflow-checking build.",
     level_note="Ring32 / LockRing32 and the arithmetic of Mutiny/Model/U32.lean are hand transcriptions of the source, tied to it (a) by the translator G4: the operator kinds of the counter arithmetic of every ring function are re-read from the current source on every run (Generated/RingOps.lean) and proved equal to the operators the machines use (Props/C15_Ops.lean; a saturating / checked / plain operator substituted for a wrapping one breaks the obligation), (b) by replaying the recorded traces of the real AtomicMove on Ring32 itself from origins around 2^32 (every hook register compared as it is); the refinement theorem excludes an exact multiple of 2^32 events flowing between the two loads of the emptiness re-check (hypothesis noABA); FullSyncMove likewise: LockRing32 with refinement theorem c15_lockring_refinement (no thread hypothesis needed under the lock) and replay; BUFFER_SIZE a power of two enters as N | 2^32; fewer than 2^31 - N concurrent claimants.",
-    lean=["C15", "C15_Machine", "C15_Ops"],
+    lean=["C15", "C15_Machine", "C15_Ops", "Tags"],
     scenarios=[ring(k, "diff", 300, extra=["origins=0,4294967288,4294967280,4294967272,4294967264"], model=False, profile=p) for k in ("atomic", "fullsync") for p in ("release", "checked")] +
               [ring(k, "mixed", 800, extra=["origins=4294967288,4294967280,0,4294967264"]) for k in ("atomic", "fullsync")] +
               # the same real traces replayed on the u32 machine Ring32 itself (hook values compared as they are, index-based calls from every origin)
@@ -193,7 +193,7 @@ PROPS = {
  "C20": dict(
     level_text="Lean 4 proof: (ring M1) with every other thread idle each operation completes within 5 own steps, consumers complete and receive the front element even while reservations are outstanding, whereas a publication behind a suspended reservation can never complete (tail cannot pass it) - the model-level witness of the movable-atomic finding; (lock ring M2) while a thread sits at the write point holding the flag nobody else ever acquires it - witness of the movable-full-sync finding - and with the flag free every operation completes in 5 own steps; zero-copy and Multi send_with_async suspend holding only a pool slot (model M8 asyncZc: every other action stays enabled). Tied to the code: scheduled runs with one send_with_async suspended until all other producers finish; the scheduler's stall verdict decides `never returns`.",
     level_note="Theorems about models M1/M2/M8; the two known findings (movable atomic, movable full-sync) are listed in known_findings.json; the retry-when-full loops of the crossbeam and arc channels wait by documented design and are outside the statement; log channel: send_with_async is todo!() upstream.",
-    lean=["C20", "C20_LockRing", "C20_Wake"],
+    lean=["C20", "C20_LockRing", "C20_Wake", "Tags"],
     scenarios=[dict(bin="uni", args=[f"kind={k}", "sub=susp"], runs=100, model=False, model_name="(oracle only)", kinds=["blocked_by_suspended_send", "async_send_never_returned", "panic", "invented", "duplicate", "lost"]) for k in UNI_KINDS + MULTI1_KINDS],
     rule="producer 0 starts send_with_async and stays suspended until every other producer (plain sends; asynchronous ones too where the channel allocates before the await) has finished; stream tasks poll meanwhile; the Multi kinds with one listener or (half of the runs) two; every ring / lock / streams-manager hook is a yield point; NON-TRIVIAL if a stream parked and a wake call happened",
     trusted_base=TB_COMMON,
@@ -202,7 +202,7 @@ PROPS = {
  "C10": dict(
     level_text="Lean 4 proof over sequential histories of any length (create / send / receive-some / drop with leftovers / release, any MAX_STREAMS, both fan-out flavours) of the stream-id bookkeeping and fan-out model: vacant and live ids always partition 0..MAX-1, the used list is the sorted live ids followed by sentinels, the running count equals the number of live listeners, create never runs out of ids while fewer than MAX are live, a dropped id becomes vacant again; with the (repaired) drain-on-drop a listener's queue is empty when its id is handed out, and what a listener receives is exactly, in order and without repetition, a prefix of the events sent during its lifetime (all of them once it polled to empty); counterexample theorem for the pinned behaviour (stale events). Tied to the five real queue-per-listener Multi channels by step-level replay of random histories at the granularity of every bookkeeping access.",
     level_note="Theorem about model M6+M7 in which a per-listener queue operation is one step (rings: C02; crossbeam trusted); histories are sequential (the property's quantifier); concurrent churn is C17. The Uni channels use the same StreamsManagerBase code (bookkeeping part of the theorem applies verbatim).",
-    lean=["C10"],
+    lean=["C10", "Tags"],
     scenarios=[dict(bin="multi", args=[f"kind={k}", "sub=hist", "drains=1"], runs=400, model_name="M6+M7 Multi", kinds=["destroyed_while_held", "slot_reused_while_held", "held_value_changed", "stale_event", "invented", "duplicate", "order", "missed_event", "panic", "no_progress", "different_allocation"]) for k in MULTI_KINDS],
     rule="one thread, random history of length 4-22 of create-listener / send / receive 1-8 / drop-listener (with or without unconsumed events), MAX_STREAMS in {1,2,4}; DISTINCT by trace hash; NON-TRIVIAL if a listener was dropped and at least two were created",
     trusted_base=TB_COMMON + ["crossbeam-channel: linearizable bounded queue"],
@@ -246,7 +246,7 @@ PROPS = {
  "C09": dict(
     level_text="Lean 4 proof, for every execution of the log-topic model in which each subscriber is polled by one task at a time (any number of publishers and subscribers, any schedule): positions become visible in position order (one total order, the same for every listener, extending each producer's call order), every listener sees at a position exactly the logged event; a joined subscriber's deliveries are literally the log prefix up to its cursor and it answers `nothing` only when it has yielded everything visible; a split pair created by one load `tl` of consumer_tail: the old half yields exactly positions [0, cur) with cur <= tl and ends exactly at tl, the new half exactly [tl, cur'): together a partition, every send completed before the load is old, every send started after it is new, publishers in flight at the load land in the new half; new-only likewise; slots are written once and never change after becoming visible (references stay valid). Counterexample theorem: two concurrent pollers of one subscriber skip an event. Tied to the real mmap log channel by step-level replay of scheduled runs with late subscriptions of the three implemented kinds.",
     level_note="Theorem about model M9 (the mmap file is a write-once array of slots; no bound on its size); sequential consistency - every atomic of the log topic is Relaxed in the source, including the publishing CAS and the subscriber's load (no release/acquire edge between the slot write and its reader): outside model and check. Old-only subscription is todo!() upstream and excluded, as the property says.",
-    lean=["C09"],
+    lean=["C09", "Tags"],
     scenarios=[dict(bin="mmaplog", args=[], runs=800, model_name="M9 MmapLog")],
     rule="1-3 publishers (1-4 events each), one subscribing thread creating 1-3 subscriptions (new only / old+new split / old+new joined) after random delays and consuming from random listeners at different speeds; every log-topic access is a yield point; DISTINCT by trace hash; NON-TRIVIAL if a late subscription happened and at least two publications",
     trusted_base=TB_COMMON + ["mmap'd memory behaves as memory (sparse file under /verif/tmp/mmap, removed after the run)"],
@@ -255,7 +255,7 @@ PROPS = {
  "C03": dict(
     level_text="Lean 4 proof on the fan-out model, from any well-formed state with a fixed set of listeners and for ANY interleaving of any number of producers' fan-out loops with the listeners' polls: the listener bookkeeping is untouched, every completed send published its event exactly once to every listener and to nobody else, each listener's deliveries followed by its queue are exactly the publications to it in publication order (so it receives every event once, in order, and one producer's events in that producer's order), ogre_arc reference counts return to zero once every copy is released. All listeners receive the same allocation (checked by the oracle: Arc pointer / pool slot). The log channel's listeners are covered by the C09 theorems (same total order for everybody). Tied to the five queue-per-listener Multi channels by step-level replay at the granularity of the fan-out loop positions, and to the log channel by its own scenario.",
     level_note="Theorem about model M6+M7 in which a per-listener queue operation is one step (rings: C02; crossbeam trusted); sequences shorter than the buffer, as the property says (the arc channels' wait-when-full loop is never entered).",
-    lean=["C03", "C09"],
+    lean=["C03", "C09", "Tags"],
     scenarios=[dict(bin="multi", args=[f"kind={k}", "sub=fan", "drains=1"], runs=300, model_name="M6+M7 Multi", kinds=["destroyed_while_held", "slot_reused_while_held", "held_value_changed", "invented", "duplicate", "order", "missed_event", "different_allocation", "stale_event", "storage_leaked", "panic", "no_progress"]) for k in MULTI_KINDS] +
               [dict(bin="mmaplog", args=[], runs=300, model_name="M9 MmapLog")],
     rule="1..MAX_STREAMS listeners (MAX in {1,2,4}) created up front, 1-2 producers sending 1-3 events each, one consumer per listener polling 1-4 times, then a drain; yield points at every fan-out loop position and poll; DISTINCT by trace hash; NON-TRIVIAL if more than one fan-out step occurred",
@@ -265,7 +265,7 @@ PROPS = {
  "C17": dict(
     level_text="PARTIAL proof: the C03 theorems (no create/drop micro-step between the first and last step of a send) for the queue-per-listener kinds; FULL statement for the log channel: in every reachable state of model M9 - publications, polls and listener creations of all three kinds by any number of threads interleaved at every access of the log topic - every subscriber holds literally the segment log[start, cursor) of the one shared log, each position once, in order, whatever listeners were created meanwhile (c17_log_listener_unaffected; a late subscriber gets a suffix: c09_new_only / c09_split_created; removing a log listener touches no state of the log). For the queue-per-listener kinds and arbitrary interleavings of listener creation / removal with the fan-out loop the property is FALSE of the code and of the model: three counterexample theorems (missed event, leaked pool slot, torn list) whose executions are exhibited on the real channels by the churn scenario and recorded as known findings. Tied to the code by step-level replay of the churn runs (the model reproduces the misbehaviour step by step).",
     level_note="Known findings D7-miss, D7-stale, D7-leak (known_findings.json). What is proved is the fixed-listener case for the queue-per-listener kinds and the full statement for the log channel; the full statement does not hold for the queue-per-listener kinds.",
-    lean=["C17", "C17_Log", "C03"],
+    lean=["C17", "C17_Log", "C03", "Tags"],
     scenarios=[dict(bin="multi", args=[f"kind={k}", "sub=churn", "drains=1"], runs=300, model_name="M6+M7 Multi", kinds=["destroyed_while_held", "slot_reused_while_held", "held_value_changed", "missed_event", "stale_event", "storage_leaked", "invented", "duplicate", "order", "different_allocation", "panic", "no_progress"]) for k in MULTI_KINDS] +
               [dict(bin="mmaplog", args=[], runs=300, model_name="M9 MmapLog")],
     rule="2-3 listeners that exist throughout, one producer (1-3 events), one thread creating / dropping other listeners, MAX_STREAMS = 4; yield points at every bookkeeping access and fan-out position; DISTINCT by trace hash; NON-TRIVIAL if a bookkeeping step of the churn thread falls between two fan-out steps of one send",
